@@ -433,7 +433,27 @@ func innerSort(s string) string {
 	return body
 }
 
-func (c *Ctx) havocAll(s *State) {
+func (c *Ctx) havocAll(s *State) { c.havocAllKeeping(s, true) }
+
+// havocAllKeeping: every heap gets an unknown new version. With keepPrivate, the fields of this function's private
+// local aggregates (struct variables whose address is never stored, returned, captured or handed to anything but
+// callees that only read and write through it; see allocIsPrivate) keep their contents: no callee can reach them.
+// Loop-head havocs do not keep them (the loop body itself may assign them).
+func (c *Ctx) havocAllKeeping(s *State, keepPrivate bool) {
+	type kept struct{ heap, ref, old string }
+	var keep []kept
+	if keepPrivate {
+		for _, pr := range s.privates {
+			var ents []modEntry
+			c.allFieldEntries(pr.ref, pr.ty, &ents)
+			for _, e := range ents {
+				if e.kind != modSingle {
+					continue
+				}
+				keep = append(keep, kept{e.heap, e.ref, c.heapTerm(s, e.heap, e.sort)})
+			}
+		}
+	}
 	var names []string
 	for n := range c.heapSorts {
 		names = append(names, n)
@@ -441,6 +461,12 @@ func (c *Ctx) havocAll(s *State) {
 	sort.Strings(names)
 	for _, n := range names {
 		c.havocHeapNamed(s, n, c.heapSorts[n])
+	}
+	for _, k := range keep {
+		if _, ok := c.heapSorts[k.heap]; !ok {
+			continue
+		}
+		c.assume(s, fmt.Sprintf("(= (select %s %s) (select %s %s))", s.heap[k.heap], k.ref, k.old, k.ref))
 	}
 	s.havocAllSeen = true
 	if !c.havocAllDeclared {
@@ -651,6 +677,9 @@ func (c *Ctx) call(s *State, fr *Frame, x *ssa.Call) []*State {
 }
 
 func relFuncName(fn *ssa.Function) string {
+	if a, ok := fnAliases[fn]; ok {
+		return a
+	}
 	if fn.Pkg == nil {
 		if o := fn.Origin(); o != nil && o.Pkg != nil {
 			return o.RelString(o.Pkg.Pkg)
@@ -682,6 +711,17 @@ func (c *Ctx) callStatic(s *State, fr *Frame, x ssa.Instruction, fn *ssa.Functio
 	setRes := func(v Val) {
 		if resReg != nil && v != nil {
 			fr.regs[resReg] = v
+		}
+		if c.afterCallNames[relFuncName(fn)] {
+			// aftercall("callee", k, e): keep the heap as this call left it
+			snap := make(map[string]string, len(s.heap))
+			for k, t := range s.heap {
+				snap[k] = t
+			}
+			if s.callHeaps == nil {
+				s.callHeaps = map[string][]map[string]string{}
+			}
+			s.callHeaps[relFuncName(fn)] = append(s.callHeaps[relFuncName(fn)][:len(s.callHeaps[relFuncName(fn)]):len(s.callHeaps[relFuncName(fn)])], snap)
 		}
 		if v != nil {
 			if s.lastRes == nil {
@@ -1899,7 +1939,7 @@ func (c *Ctx) havocLoop(s *State, mods []modEntry, allocBase string) {
 		// a loop (or range-over-func body) that is DECLARED to modify everything: sound, and not "a call with an unspecified frame"
 		prev := c.havocAllDeclared
 		c.havocAllDeclared = true
-		c.havocAll(s)
+		c.havocAllKeeping(s, false)
 		c.havocAllDeclared = prev
 		return
 	}
